@@ -291,6 +291,16 @@ def make_environ(spec):
     return env
 
 
+def same_object(d, key, default):
+    """A caller that passes as default the very object stored under the key (the same literal, an interned '' or
+    1-character string): when an equal value is stored, hand in that object itself, so that the case does not depend
+    on which strings CPython happens to share (a history replayed from JSON behaves like the generated one)."""
+    for v in catch(d.getall, key) if hasattr(d, "getall") else []:
+        if isinstance(v, str) and v == default:
+            return v
+    return default
+
+
 def md_apply(d, m):
     """A MultiDict mutation m = [name, args...] on the view d."""
     t = m[0]
@@ -301,12 +311,12 @@ def md_apply(d, m):
     if t == "del":
         return catch(d.__delitem__, m[1])
     if t == "pop":
-        return catch(d.pop, m[1]) if len(m) < 3 else catch(d.pop, m[1], m[2])
+        return catch(d.pop, m[1]) if len(m) < 3 else catch(d.pop, m[1], same_object(d, m[1], m[2]))
     if t == "popitem":
         r = catch(d.popitem)
         return list(r) if isinstance(r, tuple) else r
     if t == "setdefault":
-        return catch(d.setdefault, m[1], m[2])
+        return catch(d.setdefault, m[1], same_object(d, m[1], m[2]))
     if t == "update":
         return catch(d.update, [tuple(p) for p in m[1]])
     if t == "extend":
@@ -846,10 +856,65 @@ def rand_md(rng):
     if t == "del":
         return [t, k]
     if t == "pop":
-        return [t, k] if rng.random() < 0.5 else [t, k, "dflt"]
+        r = rng.random()
+        # without default / default that may equal the stored value ('' and 1-character values included) / other default
+        return [t, k] if r < 0.35 else ([t, k, v] if r < 0.8 else [t, k, "dflt"])
     if t in ("update", "extend"):
         return [t, [[rng.choice(GET_KEYS), rng.choice(GET_VALS)] for _ in range(rng.randrange(3))]]
     return [t]
+
+
+GET_INITS = ["", "a=1", "a=1&flag=&b=22", "flag=", "a=1&a=2&b=x"]
+
+
+def get_mutators():
+    """Every GetDict mutator with its optional arguments, in shapes that do and do not change the dict."""
+    return [
+        ["set", "a", "1"], ["set", "a", "9"], ["set", "z", ""],
+        ["add", "a", "1"], ["add", "flag", ""],
+        ["del", "a"], ["del", "z"],
+        ["pop", "a"], ["pop", "z"],
+        ["pop", "a", "1"], ["pop", "flag", ""], ["pop", "b", "22"],      # default is the stored value
+        ["pop", "a", "x"], ["pop", "b", ""],                              # present, another default
+        ["pop", "z", ""], ["pop", "z", "d"],                              # missing key, default returned
+        ["popitem"],
+        ["setdefault", "a", "1"], ["setdefault", "a", "7"], ["setdefault", "flag", ""],    # present
+        ["setdefault", "z", "1"], ["setdefault", "z", ""],                                   # absent
+        ["update", []], ["update", [["a", "1"]]], ["update", [["z", ""], ["a", "3"]]],
+        ["extend", []], ["extend", [["a", "1"]]],
+        ["clear"],
+    ]
+
+
+def get_matrix(inits=None):
+    """(envspec, ops) for every mutator x initial query string x handle kind (fresh / held and current / held and
+    stale); the old text is put back afterwards by a raw edit, so a cache key that was not refreshed shows."""
+    out = []
+    for qs in inits or GET_INITS:
+        spec = {"kind": "blank", "path": "/p?" + qs if qs else "/p", "set": []}
+        for m in get_mutators():
+            out.append((spec, [["GET", 0, "fresh", m], ["env_set", "QUERY_STRING", qs]]))
+            out.append((spec, [["hold", 1, "GET"], ["GET", 0, 0, m], ["env_set", "QUERY_STRING", qs]]))
+            out.append((spec, [["hold", 0, "GET"], ["env_set", "QUERY_STRING", "q=0"], ["read", 1, "GET"], ["GET", 1, 0, m],
+                               ["env_set", "QUERY_STRING", "q=0"]]))
+    return out
+
+
+def get_mutator_coverage(jobs):
+    """For each mutator kind: was it run in a state where it changes the dict, and in one where it does not?"""
+    from webob.multidict import GetDict
+    from webob.util import parse_qsl_text
+    cov = {}
+    for spec, ops in jobs:
+        qs = spec["path"].split("?", 1)[1] if "?" in spec["path"] else ""
+        for op in ops:
+            if op[0] == "GET":
+                d = GetDict(list(parse_qsl_text(qs)), {})
+                before = list(d.items())
+                md_apply(d, op[3])
+                c = cov.setdefault(op[3][0], {"changes": 0, "leaves": 0})
+                c["changes" if list(d.items()) != before else "leaves"] += 1
+    return cov
 
 
 def rand_cc(rng):
@@ -1496,6 +1561,9 @@ def small_universe():
         ["delattr", 0, "cache_control"],
         ["hold", 0, "GET"], ["hold", 1, "cc"],
         ["setattr", 0, "query_string", "a=1"], ["setattr", 1, "content_type", "text/html; charset=latin-1"],
+        ["GET", 0, "fresh", ["pop", "a", "1"]], ["GET", 1, 0, ["pop", "b", "3"]], ["GET", 0, "fresh", ["pop", "z", ""]],
+        ["GET", 1, "fresh", ["setdefault", "a", "1"]], ["GET", 0, 0, ["setdefault", "z", ""]], ["GET", 0, "fresh", ["popitem"]],
+        ["GET", 1, 0, ["clear"]], ["GET", 0, "fresh", ["update", [["a", "1"]]]], ["GET", 1, "fresh", ["extend", []]],
     ]
 
 
@@ -1561,7 +1629,7 @@ def strlib_cases(rng, n):
 
 def run(ctx):
     ctx.build(["Props/C01.vo"])
-    for stage in (stage_strlib, stage_envview, stage_oracle):
+    for stage in (stage_strlib, stage_envview, stage_get_mutators, stage_oracle):
         try:
             stage(ctx)
         except Exception:  # noqa  (a stage that cannot run is a broken tie; the other stages still run)
@@ -1610,6 +1678,41 @@ def stage_envview(ctx):
 
 
 
+def stage_get_mutators(ctx):
+    """Every GetDict mutator, changing and not changing the dict, through fresh / held / stale handles:
+    correspondence with the model, then the statement on the implementation (eager and final mode)."""
+    matrix = get_matrix()
+    probes = [[0, ["GET"]], [1, ["key", "QUERY_STRING", "", "query_string"]]]
+    sel = matrix if ctx.thorough else [c for c in matrix if c[0]["path"] in ("/p", "/p?a=1&flag=&b=22", "/p?a=1&a=2&b=x")]
+    cases = [corr_case(spec, [o if o[0] != "read" else ["read", o[1], ["GET"]] for o in ops], probes) for spec, ops in sel]
+    bad = ctx.corr("get-mutators", IMPORTS, "(agrees run_case)", cases, in_type="(case * val)", shard=25, shard_bytes=200000)
+    nbroken = 0
+    for i in bad[:25]:
+        case = cases[i][2]
+        mode = None
+        msg = run_history(case["env"], case["ops"], getters=FOCUS_GETTERS)
+        if not msg:
+            mode = "final"
+            msg = run_history(case["env"], case["ops"], getters=FOCUS_GETTERS, lazy_seed=mode)
+        if msg:
+            sp, os_ = shrink(case["env"], case["ops"], msg[0], getters=FOCUS_GETTERS, lazy_seed=mode)
+            m2 = run_history(sp, os_, getters=FOCUS_GETTERS, lazy_seed=mode) or msg
+            ctx.fail(m2[0], m2[1], {"env": sp, "ops": os_, "lazy": mode, "getters": FOCUS_GETTERS}, True, "corr")
+        elif nbroken < 3:
+            nbroken += 1
+            ctx.broken.append("correspondence get-mutators: model and implementation disagree on %s" % json.dumps(case)[:1200])
+    jobs = []
+    for spec, ops in matrix:
+        jobs.append((spec, ops, None, FOCUS_GETTERS))
+        jobs.append((spec, ops, "final", FOCUS_GETTERS))
+    oracle_many(ctx, "get-mutators", jobs)
+    cov = get_mutator_coverage(matrix)
+    ctx.extra["get_mutator_coverage"] = cov
+    for kind, c in sorted(cov.items()):
+        if kind != "add" and (not c["changes"] or not c["leaves"]):
+            ctx.broken.append("generator: GetDict.%s is not exercised both changing and not changing the dict: %r" % (kind, c))
+
+
 def stage_oracle(ctx):
     # ------------------------------------------------------------------ oracle: the statement on the implementation
     jobs = [(spec, ops, "final", None) for spec, ops in KNOWN_WITNESSES]
@@ -1623,7 +1726,8 @@ def stage_oracle(ctx):
     for d in range(1, depth + 1):
         for ops in itertools.product(U, repeat=d):
             for init in inits:
-                jobs.append((init, list(ops), None, FOCUS_GETTERS))
+                if d <= 2:      # depth 3 (thorough) in final mode only: reading after every step re-primes the caches
+                    jobs.append((init, list(ops), None, FOCUS_GETTERS))
                 if d > 1:
                     jobs.append((init, list(ops), "final", FOCUS_GETTERS))
     if ctx.thorough:
